@@ -108,6 +108,15 @@ def disc_scratch(check):
         config = init_attrs(proj, c)
         md = MustDef(proj, c, config)
         reps = md.run(rhs)
+        # a presence-tested attribute that the MEMO engine proves to be a COMPLETE cache (its re-use condition
+        # determines everything it was computed from) is not a dependence on the previous call
+        from .. import memo as _memo
+        _f, _stats = _memo.analyse(proj, [k for k in proj.mro(c)])
+        complete = {x.rsplit(".", 1)[1] for x in _stats["covered"]} - {x.attr for x in _f}
+        cached = sorted({r[0] for r in reps if r[0] in complete})
+        reps = [r for r in reps if r[0] not in complete]
+        if cached:
+            check.ok("DISC-SCRATCH", qn + ".rhs", "self.%s: lazily built, re-used only under a condition that determines all its inputs (complete cache, STATE-MEMO)" % ", self.".join(cached), rhs.loc())
         if reps:
             a, fq, ln, how = reps[0]
             check.violation("DISC-SCRATCH", qn + ".rhs", "self.%s is %s at %s:%d before rhs() wrote it in this call: the space operator depends on the previous call" % (a, "tested with hasattr" if how == "hasattr" else "read", fq, ln), rhs.loc(), key="disc-" + a)
